@@ -3,6 +3,7 @@ package html
 import (
 	"fmt"
 	"io"
+	"regexp"
 	"strings"
 
 	"github.com/elliotchance/gedcom/v39"
@@ -108,8 +109,13 @@ func PageSources() string {
 	return "sources.html"
 }
 
+// sourcePageRegexp matches everything that must not appear in the file name of
+// a source page. Pointers come from the file and may contain path separators.
+var sourcePageRegexp = regexp.MustCompile("[^A-Za-z_0-9-]+")
+
 func PageSource(source *gedcom.SourceNode) string {
-	return fmt.Sprintf("%s.html", source.Pointer())
+	return fmt.Sprintf("%s.html",
+		sourcePageRegexp.ReplaceAllString(source.Pointer(), "-"))
 }
 
 func PageStatistics() string {
